@@ -903,7 +903,9 @@ def nodekeys(ctx: Ctx) -> None:
         if not f.module.qual.startswith("cubed.core."):
             continue
         for c in f.own_nodes():
-            if isinstance(c, ast.Call) and isinstance(c.func, ast.Attribute) and c.func.attr == "add_node":
+            # node attributes are written by add_node(...), or collected first in a dict
+            # (`attrs = dict(...)`, `attrs.update(...)`) that add_node(**attrs) receives
+            if isinstance(c, ast.Call) and ((isinstance(c.func, ast.Attribute) and c.func.attr in ("add_node", "update")) or (isinstance(c.func, ast.Name) and c.func.id == "dict")):
                 for k in c.keywords:
                     if k.arg:
                         written.add(k.arg)
@@ -912,7 +914,7 @@ def nodekeys(ctx: Ctx) -> None:
                     n_sites += 1
                     pl = kwarg(c, "pipeline")
                     ok = pl is not None and isinstance(pl, ast.Attribute) and pl.attr == "pipeline" and ast.dump(pl.value) == ast.dump(po)
-                    ctx.ob(f, c, ok, "add_node(primitive_op=X) must come with pipeline=X.pipeline", sel="keys:add_node")
+                    ctx.ob(f, c, ok, "node attributes primitive_op=X must come with pipeline=X.pipeline", sel="keys:add_node")
             if isinstance(c, ast.Assign) and isinstance(c.targets[0], ast.Subscript) and isinstance(c.targets[0].slice, ast.Constant) and isinstance(c.targets[0].slice.value, str):
                 key = c.targets[0].slice.value
                 written.add(key)
@@ -963,18 +965,45 @@ def plan_edges(ctx: Ctx) -> None:
                 continue
             extra.append(unparse(t))
         ctx.ob(new, c, not extra, "no filter on the source edges other than `hasattr(x, 'name')`" + ("" if not extra else f" — {extra}"), sel="edges:sources-unfiltered")
-    out_edges = [c for c in edges if c not in src_edges]
-    ctx.ob(new, None, len(out_edges) >= 2, "Plan._new adds op → output edges (single and multiple outputs)", sel="edges:outputs")
     # every array node created here is attached to the operation node created here
     from .runtime import _block_of
 
-    op_vars = {unparse(c.args[0]) for c in new.own_nodes() if isinstance(c, ast.Call) and isinstance(c.func, ast.Attribute) and c.func.attr == "add_node" and c.args and isinstance(kwarg(c, "type"), ast.Constant) and kwarg(c, "type").value == "op"}
-    for c in [c for c in new.own_nodes() if isinstance(c, ast.Call) and isinstance(c.func, ast.Attribute) and c.func.attr == "add_node" and c.args and isinstance(kwarg(c, "type"), ast.Constant) and kwarg(c, "type").value == "array"]:
-        st_ = cfg.nodes[cfg.node_of(c)].stmt
-        blk = _block_of(new, st_)
-        a0 = unparse(c.args[0])
-        ok = any(isinstance(x, ast.Call) and isinstance(x.func, ast.Attribute) and x.func.attr == "add_edge" and len(x.args) == 2 and unparse(x.args[0]) in op_vars and unparse(x.args[1]) == a0 for b_ in blk for x in ast.walk(b_))
-        ctx.ob(new, c, ok, f"the array node `{a0}` gets an edge from the operation that produces it, in the same block" + ("" if ok else " — missing: the array has no producer in the graph, so its consumers are not ordered after the operation that writes it"), sel=f"edges:output:{ctx.anon(new, c.args[0], 20)}:{'loop' if cfg.nodes[cfg.node_of(c)].loops else 'single'}:{len([1 for t, pol in facts_at(cfg, cfg.node_of(c)) if pol])}")
+    def is_add_node(c: ast.AST, typ: str) -> bool:
+        return isinstance(c, ast.Call) and isinstance(c.func, ast.Attribute) and c.func.attr == "add_node" and bool(c.args) and isinstance(kwarg(c, "type"), ast.Constant) and kwarg(c, "type").value == typ
+
+    op_vars = {unparse(c.args[0]) for c in new.own_nodes() if is_add_node(c, "op")}
+    if not op_vars:
+        # attributes collected in a dict first: add_node(X, **attrs) where attrs has type="op"
+        for c in new.own_nodes():
+            if isinstance(c, ast.Call) and isinstance(c.func, ast.Attribute) and c.func.attr == "add_node" and c.args and any(k.arg is None for k in c.keywords):
+                for k in c.keywords:
+                    if k.arg is None and isinstance(k.value, ast.Name):
+                        for s_ in flow_of(repo, new).rdefs(k.value.id, cfg.node_of(c)):
+                            if isinstance(s_.value, ast.Call) and isinstance(kwarg(s_.value, "type"), ast.Constant) and kwarg(s_.value, "type").value == "op":
+                                op_vars.add(unparse(c.args[0]))
+    ctx.need(op_vars, "Plan._new: creation of the operation node not recognised")
+    # (the array nodes may be added by a private piece of Plan._new: one level)
+    scopes: list[tuple[Def, set[str]]] = [(new, op_vars)]
+    for c in new.own_nodes():
+        if isinstance(c, ast.Call):
+            for t in repo.resolve_call(c, new, new.module):
+                if t.kind == "def" and t.ref.is_func and t.ref is not new and t.ref.module is new.module and t.ref.name.startswith("_") and not t.ref.name.startswith("__"):
+                    h = t.ref
+                    pos = [p_ for p_ in h.positional_params if p_ not in ("self", "cls")] if h.cls is not None and "staticmethod" not in h.decorators() else h.positional_params
+                    bound = {pos[i] for i, a in enumerate(c.args) if i < len(pos) and unparse(a) in op_vars} | {k.arg for k in c.keywords if k.arg and unparse(k.value) in op_vars}
+                    if bound and all(h is not h2 for h2, _ in scopes):
+                        scopes.append((h, bound))
+    n_arr = 0
+    for F, ovars in scopes:
+        cfgF = cfg_of(F)
+        for c in [c for c in F.own_nodes() if is_add_node(c, "array")]:
+            n_arr += 1
+            st_ = cfgF.nodes[cfgF.node_of(c)].stmt
+            blk = _block_of(F, st_)
+            a0 = unparse(c.args[0])
+            ok = any(isinstance(x, ast.Call) and isinstance(x.func, ast.Attribute) and x.func.attr == "add_edge" and len(x.args) == 2 and unparse(x.args[0]) in ovars and unparse(x.args[1]) == a0 for b_ in blk for x in ast.walk(b_))
+            ctx.ob(F, c, ok, f"the array node `{a0}` gets an edge from the operation that produces it, in the same block" + ("" if ok else " — missing: the array has no producer in the graph, so its consumers are not ordered after the operation that writes it"), sel=f"edges:output:{ctx.anon(F, c.args[0], 20)}:{'loop' if cfgF.nodes[cfgF.node_of(c)].loops else 'single'}:{len([1 for t, pol in facts_at(cfgF, cfgF.node_of(c)) if pol])}")
+    ctx.need(n_arr >= 1, "Plan._new: creation of the array nodes not recognised")
     for q in (f"{A.OPS}.blockwise", f"{A.OPS}._general_blockwise"):
         f = repo.get(q)
         fl = flow_of(repo, f)
